@@ -1,5 +1,6 @@
 import MgpuModel.C12_K
 import MgpuModel.C12_Wake
+import MgpuModel.C12_Full
 /-!
 # C12.E — the composed model: application threads + `runAsync` + engine goroutine + `Driver.Tick`
 
@@ -173,6 +174,81 @@ def Sync (s : St) : Prop := s.k.qs.map (fun q => q.cmds.length) = s.core.d.qs.ma
 instance (s : St) : Decidable (Sync s) := by unfold Sync; exact inferInstance
 
 end G
+
+/-! ## C12.E.F — the composition with ALL seven stages of `Driver.Tick` and both ports (`W.Full`)
+
+Same construction as `G` with the component of `C12.W.Full`: Noop / kernel / H2D / D2H / magic-copy /
+flush commands, the shared delay line, the page-migration handshake, the GPU port with the GPU side
+as ghost `ext` (answers are answers to requests really sent), the MMU port. Everything the component
+does is done BY `W.Full.step` on `sysOf s` and written back (`put`): the append of `Enqueue` is
+`Full.Ev.enq`, `runAsync`'s `TickLater` is `.kick`, the tick event is `.tick`, the connections are
+`.retrieveG` / `.answer j` / `.deliverM r` / `.retrieveM`. The protocol part moves by `K.step`; its
+id queues follow the component's queues (`Sync`). -/
+namespace F
+
+structure St where
+  k : K.St
+  core : W.Full.C
+  ext : List W.Full.GReq := []
+  owed : Bool := false
+
+inductive Th
+  | app (j : Nat) | async | eng
+  | env (ev : W.Full.Ev)      -- the GPU side / the MMU side (`envOk`)
+
+def sysOf (s : St) : W.Full.Sys := { core := s.core, awake := s.k.evt, owed := s.owed, ext := s.ext }
+
+/-- write back what `W.Full.step` did (the tick-scheduled flag is `K`'s `evt`) -/
+def put (k : K.St) (y : W.Full.Sys) : St :=
+  { k := { k with evt := y.awake }, core := y.core, ext := y.ext, owed := y.owed }
+
+def syncN (q : K.Qu) (n : Nat) : K.Qu := Nat.repeat K.deqQu (q.cmds.length - n) q
+def lens (c : W.Full.C) : List Nat := c.d.qs.map fun q => q.cmds.length
+
+def notifyN : Nat → List K.Qu → List Nat → List K.App → List K.App
+  | i, q :: qs, n :: ns, apps => notifyN (i + 1) qs ns (if n < q.cmds.length then K.notifyAll i apps else apps)
+  | _, _, _, apps => apps
+
+/-- what the connections do (no injected foreign message; enqueues and kicks belong to the threads) -/
+def envOk : W.Full.Ev → Bool
+  | .retrieveG => true | .answer _ => true | .deliverM _ => true | .retrieveM => true | _ => false
+
+def step (kind : Nat → W.Full.Cmd) (caps : W.Full.Caps) (s : St) : Th → Option St
+  | .app j => match s.k.apps[j]? with
+    | none => none
+    | some a => (K.step s.k (.app j)).map fun k' =>
+        if isEnq a then put k' (W.Full.step caps (sysOf s) (.enq (G.enqTarget a) (kind s.k.nextId)))
+        else { s with k := k' }
+  | .async => (K.step s.k .async).map fun k' =>
+      if s.k.r = .tick then put k' (W.Full.step caps (sysOf s) .kick) else { s with k := k' }
+  | .eng =>
+    if s.k.e = .loop ∧ s.k.evt = true then
+      let y := W.Full.step caps (sysOf s) .tick
+      some { k := { s.k with evt := y.awake, qs := List.zipWith syncN s.k.qs (lens y.core),
+                             apps := notifyN 0 s.k.qs (lens y.core) s.k.apps },
+             core := y.core, ext := y.ext, owed := y.owed }
+    else if K.isTickPc s.k.e then none
+    else (K.step s.k .eng).map fun k' => { s with k := k' }
+  | .env ev => if envOk ev then some (put s.k (W.Full.step caps (sysOf s) ev)) else none
+
+def init (cfg : W.Full.Cfg) (scripts : List (List K.Op)) : St :=
+  { k := K.init scripts cfg.ctxs.length, core := (W.Full.init cfg).core }
+
+def runSched (kind : Nat → W.Full.Cmd) (caps : W.Full.Caps) (s : St) : List Th → Option St
+  | [] => some s
+  | t :: ts => match step kind caps s t with
+    | none => none
+    | some s' => runSched kind caps s' ts
+
+inductive Reach (kind : Nat → W.Full.Cmd) (caps : W.Full.Caps) : St → Prop
+  | init (cfg : W.Full.Cfg) (scripts : List (List K.Op)) (h : ∀ sc ∈ scripts, K.okScript sc = true) :
+      Reach kind caps (init cfg scripts)
+  | step {s s' : St} (t : Th) : Reach kind caps s → step kind caps s t = some s' → Reach kind caps s'
+
+def Sync (s : St) : Prop := s.k.qs.map (fun q => q.cmds.length) = lens s.core
+instance (s : St) : Decidable (Sync s) := by unfold Sync; exact inferInstance
+
+end F
 
 end E
 end C12
